@@ -921,6 +921,11 @@ func rpcGetEntryAndProof(ctx context.Context, li *logInfo, req *trillian.GetEntr
 	if err != nil {
 		return nil, li.toHTTPStatus(err), fmt.Errorf("backend GetEntryAndProof request failed: %s", err)
 	}
+	// The backend sends no leaf when its tree is smaller than the requested tree
+	// size; the caller reports that (and any other missing part) itself.
+	if rsp.Leaf == nil {
+		return rsp, http.StatusOK, nil
+	}
 	if err := li.issuanceChainService.FixLogLeaf(ctx, rsp.Leaf); err != nil {
 		return nil, http.StatusInternalServerError, fmt.Errorf("failed to fix log leaf: %v", rsp)
 	}
